@@ -242,6 +242,26 @@ def replay_tally_register(rec):
                 if mm is not None and want is None:
                     return {"reproduced": True, "input": {"observations": seq, "reinitialised_before": reinit},
                             "observed": "getter %s returned %r, exact reference %r" % mm}
+    # a rejected observation changes no reported value -- also on an empty or freshly initialised tally
+    for prefix in ([], [3.0], [3.0, -1.5]):
+        for reinit in (False, True):
+            for bad in (None, "x", float("nan"), [1.0]):
+                t = Tally("replay")
+                for x in prefix:
+                    t.register(x)
+                if reinit:
+                    t.initialize()
+                snap = lambda: [repr(g()) for g in (t.n, t.sum, t.min, t.max, t.mean, t.variance, t.stdev)]
+                before = snap()
+                try:
+                    t.register(bad)
+                    continue
+                except (TypeError, ValueError):
+                    pass
+                if snap() != before:
+                    return {"reproduced": True, "input": {"observations": prefix, "initialize_before": reinit, "rejected": repr(bad)},
+                            "observed": "after the rejected register(%r) the getters (n, sum, min, max, mean, variance, stdev) changed from %s to %s"
+                                        % (bad, before, snap())}
     return {"reproduced": False, "note": "no failing history found (n<=7 candidate sequences)"}
 
 
@@ -689,7 +709,7 @@ def parameters_search(rounds=1500, seed=0):
                 if rng.random() < 0.15:
                     v = rng.choice([Mass(50.0), 50.0, "50 m", None])
                 else:
-                    v = qcls(rng.choice([0.05, 0.5, 1.0, 5.0, 20.0, 50.0, 100.0, 300.0, 2000.0]), rng.choice(units))
+                    v = qcls(rng.choice([0.05, 0.5, 1.0, 5.0, 20.0, 50.0, 100.0, 300.0, 2000.0, float("nan"), float("inf")]), rng.choice(units))
                 qhist.append(repr(v))
                 try:
                     qp.set_value(v)
